@@ -29,6 +29,10 @@ static std::string check_perm(const KV &c) {
     ref::permute(r, fr);
     Obj<ascon_state_t> so;
     ascon_state_t &s = *so.get();
+    // "Initializes the words of the ASCON permutation state to zero": over storage holding the case's bytes
+    memcpy((void *)&s, st.data(), std::min<size_t>(40, sizeof(s)));
+    ascon_init(&s);
+    { Bytes z = view(&s); for (int i = 0; i < 40; ++i) if (z[i]) return "ascon_init left a non-zero state: " + hex(z); }
     load(&s, st);
     ascon_permute(&s, (uint8_t)fr);
     Bytes got = view(&s);
